@@ -27,9 +27,18 @@ pub struct SpillCase {
     pub beyond: u32,
     pub face: Face,
     pub pol: Policy,
+    /// regular list (consecutive ids, constant length, contiguous offsets): compresses so well
+    /// that many thousand entries fit the root under a compressing codec
+    #[serde(default)]
+    pub regular: bool,
 }
 
 pub struct SpillUtil;
+
+fn regular_entries(seed: u64, n: u32) -> Vec<SpecEntry> {
+    let base = seed % 100;
+    (0..u64::from(n)).map(|i| SpecEntry { tile_id: base + i, offset: 4 * i, length: 4, run_length: 1 }).collect()
+}
 
 fn entries_of(seed: u64, n: u32) -> Vec<SpecEntry> {
     let mut v = draw_entries(&mut Rng::new(seed), 24_000, true);
@@ -90,12 +99,17 @@ impl Scenario for SpillUtil {
             n = 2500 + rng.below(4000) as u32;
         }
         let face = Face::draw(rng);
-        to_value(&SpillCase { n, seed, ic, start, pos: *rng.pick(&[0u32, 0, 1, 64, 127, 5000, 20_000, 40_000]), beyond: if rng.chance(50) { 30_000 } else { 0 }, face, pol: Policy::draw(rng, face == Face::Async) })
+        let regular = rng.chance(12);
+        let (n, ic) = if regular { (*rng.pick(&[4000u32, 4064, 4065, 4100, 6000, 9000, 20_000, 70_000]), *rng.pick(&[2u8, 4, 3, 2, 4, 1])) } else { (n, ic) };
+        to_value(&SpillCase { n, seed, ic, start, pos: *rng.pick(&[0u32, 0, 1, 64, 127, 5000, 20_000, 40_000]), beyond: if rng.chance(50) { 30_000 } else { 0 }, face, pol: Policy::draw(rng, face == Face::Async), regular })
     }
     fn execute(&self, case: &Value, ctx: &mut Ctx) -> V<()> {
         let c: SpillCase = from_value(case);
         ctx.evals += 1;
-        let list = entries_of(c.seed, c.n);
+        let list = if c.regular { regular_entries(c.seed, c.n) } else { entries_of(c.seed, c.n) };
+        if c.regular {
+            ctx.bump("probe_regular_lists", 1);
+        }
         let es = entries_to_crate(&list);
         let comp = sut::comp(c.ic);
         // does the whole list fit? measured with the crate's own directory serialiser of the SAME
